@@ -338,3 +338,20 @@ _add(
          "output and the complete final state of the uninterrupted run bit-for-bit.",
     technique="runtime monitoring: relational monitor, interrupted-and-restored run vs uninterrupted run at every checkpoint position",
 )
+
+_add(
+    "C14",
+    rule="neurons (8 classes), synapses (4), connections (4 types x 4 synapses, with/without learned delays), reducers (6) "
+         "and a Serial layer: constructed with a random configuration c0, then 1-6 random assignments of dt / maximum "
+         "delay / batch size / duration / inplace / replacement synapse / .to(float64); after every assignment all "
+         "configuration getters are compared with a before-snapshot; at the end a constructor-built twin with the final "
+         "configuration is compared (reported configuration, recordsz/dt/duration/inclusive of every internal "
+         "RecordTensor, outputs from a cleared state on the same inputs). One evaluation = one assignment judged; "
+         "distinct = (component kind, class, assigned attribute).",
+    required=["assignments_checked", "twin_comparisons", "output_comparisons"],
+    floor={"quick": 40, "thorough": 80},
+    text="Held on every assignment sequence explored: each real property setter reports the assigned value back, leaves "
+         "every other reported attribute unchanged, and the setter-built object is indistinguishable - configuration, "
+         "internal history sizes, outputs from a cleared state - from one constructed directly with that configuration.",
+    technique="runtime monitoring: relational monitor, setter-built object vs constructor-built twin with per-assignment getter snapshots",
+)
